@@ -154,7 +154,7 @@ class HeffProbe:
             h = hs @ hs
         m = np.asarray(qn_mask).ravel()
         Pm = P[:, m]
-        return Pm.T @ h @ Pm, Pm.T @ Pm, cidx
+        return Pm.conj().T @ h @ Pm, Pm.conj().T @ Pm, cidx
 
     def lib_ham(self, mps, qn_mask, ltensor, rtensor, cmo, omega):
         if isinstance(ltensor, list):
@@ -195,6 +195,8 @@ class HeffProbe:
         # iterative operator
         hop = self.lib_hop(mps, qn_mask, ltensor, rtensor, cmo, omega)
         x = self.rng.normal(size=len(want))
+        if np.iscomplexobj(want):
+            x = x + 1j * self.rng.normal(size=len(want))
         d = absmax(hop(x) - want @ x)
         if d > tol * 10 * max(1.0, np.linalg.norm(x)):
             self.viol(f"heff:iterative-hop-vs-dense-compression:{tag}", dict(cidx=cidx, err=d, tol=tol))
@@ -298,6 +300,9 @@ def order_of(model, tm):
 def run_chain_case(run, rng, kind, big=False, force=None):
     force = force or {}
     tm = gen_chain_model(rng, kind, big)
+    if kind in ("spin", "spin-u1", "eph") and force.get("complex", bool(rng.random() < 0.35)):
+        tm = L.complexify(tm, rng)       # complex Hermitian Hamiltonian (chain only: TTNO takes real operators)
+    run.count(f"chain:complex-hamiltonian={bool(tm.extra.get('complex_hopping'))}")
     n = len(tm.sites)
     nroots = force.get("nroots", int(rng.choice([1, 1, 2, 3, 4])))
     qntot, sdim = pick_sector(tm, rng, max(3, nroots + 2))
@@ -359,6 +364,10 @@ def run_chain_case(run, rng, kind, big=False, force=None):
     if mps is None:
         run.count("chain:rejected:Mps.random")
         return None
+    if tm.extra.get("complex_hopping"):
+        # a real-dtype start state is rejected by an assertion of the Matrix container when the first complex tensor is
+        # stored (explicit precondition: the state's dtype must be able to hold the result)
+        mps = mps.to_complex()
     if rng.random() < 0.5:
         mps.ensure_left_canonical()
     else:
@@ -436,7 +445,7 @@ def run_chain_case(run, rng, kind, big=False, force=None):
         if leak > 1e-9 or np.ravel(st.qntot).tolist() != qntot.tolist():
             run.violation(f"optimize_mps:returned-state-sector:{tagc}", dict(replay, root=j, leak=leak, qntot=np.ravel(st.qntot).tolist()))
             continue
-        e_states.append(float(psi @ hcur @ psi))
+        e_states.append(float(np.real(psi.conj() @ hcur @ psi)))
         if order != list(range(n)):
             run.count("chain:ofs-reordered")
     # ---- F
